@@ -597,14 +597,15 @@ def run(ctx):
             yo = blines[i].split("\t")[1]
             rows.append((i, '(%s%%N, [%s], %s, (%s)%%Z, Some (%s)%%Z)' % (p[0], caps, "None" if yo == "-" else "Some (%s)%%Z" % yo, blines[i].split("\t")[2], p[1])))
         hdr = vlib.COQ_PRINT_HDR + "From Coq Require Import String List NArith ZArith.\nImport ListNotations.\nFrom S4.Corr Require Import C04.\nOpen Scope string_scope.\n"
-        if quick and len(rows) > 2500:
+        cap = 2500 if quick else 60000
+        if len(rows) > cap:
             # the same lines also go through the whole pipeline model (regex + normalise + parse) above;
             # this run isolates normalise + parse on the captures the crate produced
-            rows = rng.sample(rows, 2500)
+            rows = rng.sample(rows, cap)
         shards = vlib.shard(rows, vlib.NCPU)
         texts = [hdr + "Definition cases : list (N * list (option string) * option Z * Z * option Z) := [\n%s\n].\nEval vm_compute in (model_bad cases).\n" % ";\n".join(r[1] for r in sh_) for sh_ in shards]
         tb = time.time()
-        res = vlib.coq_eval_shards(os.path.join(CACHE, "cases", "C04", "model"), texts)
+        res = vlib.coq_eval_shards(os.path.join(CACHE, "cases", "C04", "model"), texts, timeout=1800)
         ctx.note("coq model evaluation: %d cases in %.1fs" % (len(rows), time.time() - tb))
         for sh_, (rc, out) in zip(shards, res):
             pairs = vlib.parse_eval_pairs(out) if rc == 0 else None
@@ -631,13 +632,13 @@ def run(ctx):
             zc = "inr None" if z is None else "inl (%d)%%Z" % z[1] if z[0] == "num" else 'inr (Some "%s")' % hx(z[1].encode())
             srows.append("(false, ((%d)%%Z, (%d)%%Z, (%d)%%Z, (%d)%%Z, (%d)%%Z, (%d)%%Z, (%d)%%Z), %s, (%d)%%Z, Some (%d)%%Z)" % (
                 F["y"], F["mo"], F["d"], F["h"], F["mi"], F["s"], frac, zc, fb, exp))
-    if quick and len(srows) > 4000:
-        srows = rng.sample(srows, 4000)
+    if len(srows) > (4000 if quick else 60000):
+        srows = rng.sample(srows, 4000 if quick else 60000)
     hdr = vlib.COQ_PRINT_HDR + "From Coq Require Import String List NArith ZArith.\nImport ListNotations.\nFrom S4.Corr Require Import C04.\nOpen Scope string_scope.\n"
     shards = vlib.shard(srows, vlib.NCPU)
     texts = [hdr + "Definition cases : list (bool * (Z * Z * Z * Z * Z * Z * Z) * (Z + option string) * Z * option Z) := [\n%s\n].\nEval vm_compute in (spec_bad cases).\n" % ";\n".join(sh_) for sh_ in shards]
     tb = time.time()
-    res = vlib.coq_eval_shards(os.path.join(CACHE, "cases", "C04", "spec"), texts)
+    res = vlib.coq_eval_shards(os.path.join(CACHE, "cases", "C04", "spec"), texts, timeout=1800)
     ctx.note("coq spec evaluation: %d cases in %.1fs" % (len(srows), time.time() - tb))
     oracle_dis = 0
     for sh_, (rc, out) in zip(shards, res):
